@@ -356,6 +356,8 @@ class Interp:
                     v = v[4][s[1]]
                 elif v[0] == "closure" and isinstance(s[1], int) and s[1] < len(v[2]):
                     v = v[2][s[1]]
+                elif v[0] == "bytes" and s[1] in (0, "0"):
+                    pass      # hybrid_array::Array is a transparent wrapper: `.0` is the inner array
                 else:
                     raise Undecided("field %s of %s value at %r" % (s[1], v[0], tg))
             elif s[0] == "br":
@@ -464,7 +466,10 @@ class Interp:
                 elif cur["k"] == "adt" and cur["adt_kind"] == "enum":
                     tg = tg.ext(("f", e["i"]))
                 elif nm.isdigit():
-                    tg = tg.ext(("f", int(nm)))
+                    if self.is_bytes_ty(fr.crate, cur_ty):
+                        pass      # `.0` of the transparent Array wrapper: same bytes
+                    else:
+                        tg = tg.ext(("f", int(nm)))
                 else:
                     tg = tg.ext(("f", nm))
             elif k == "downcast":
